@@ -187,12 +187,21 @@ func extractLayout(info *types.Info, body ast.Node) []layoutOp {
 		}
 		return 0
 	}
+	// the bytes a fixed-width put/get touches are [lo, lo+width/8) whatever the slice's upper bound is
+	// (buf[8:16], buf[8:] and buf[8:24] are the same for Uint64), as long as the slice is long enough
+	norm := func(lo, hi, w int) int {
+		if lo >= 0 && w > 0 && (hi == -1 || hi >= lo+w/8) {
+			return lo + w/8
+		}
+		return hi
+	}
 	ast.Inspect(body, func(n ast.Node) bool {
 		switch x := n.(type) {
 		case *ast.CallExpr:
 			order, m, ok := byteOrderCall(info, x)
 			if ok && strings.HasPrefix(m, "PutUint") && len(x.Args) == 2 {
 				buf, lo, hi, ok2 := sliceRange(info, x.Args[0])
+				hi = norm(lo, hi, width(m))
 				if ok2 {
 					ops = append(ops, layoutOp{Kind: "put", Lo: lo, Hi: hi, Width: width(m), Order: order, Value: valueDesc(info, x.Args[1]), Pos: x.Pos(), Buf: buf})
 				}
@@ -206,6 +215,7 @@ func extractLayout(info *types.Info, body ast.Node) []layoutOp {
 				if ce, ok := ast.Unparen(rhs).(*ast.CallExpr); ok {
 					if order, m, ok := byteOrderCall(info, ce); ok && strings.HasPrefix(m, "Uint") && len(ce.Args) == 1 {
 						buf, lo, hi, ok2 := sliceRange(info, ce.Args[0])
+						hi = norm(lo, hi, width(m))
 						if ok2 {
 							op := layoutOp{Kind: "get", Lo: lo, Hi: hi, Width: width(m), Order: order, Value: valueDesc(info, x.Lhs[i]), Pos: ce.Pos(), Buf: buf}
 							ops = append(ops, op)
@@ -236,6 +246,18 @@ func extractLayout(info *types.Info, body ast.Node) []layoutOp {
 						if k, ok := constInt(info, ie.Index); ok {
 							if v := valueDesc(info, rgt); strings.HasPrefix(v, "const:") {
 								ops = append(ops, layoutOp{Kind: "bytetest", Lo: int(k), Hi: int(k) + 1, Value: v, Op: x.Op, Pos: x.Pos(), Buf: id.Name})
+							}
+						}
+					}
+				}
+				// UintN(buf[lo:hi]) OP c, written inline (either operand order)
+				for _, pair := range [][2]ast.Expr{{l, rgt}, {rgt, l}} {
+					if ce, ok := pair[0].(*ast.CallExpr); ok {
+						if order, m, ok := byteOrderCall(info, ce); ok && strings.HasPrefix(m, "Uint") && len(ce.Args) == 1 {
+							if buf, lo, hi, ok2 := sliceRange(info, ce.Args[0]); ok2 {
+								if v := valueDesc(info, pair[1]); strings.HasPrefix(v, "const:") {
+									ops = append(ops, layoutOp{Kind: "identtest", Lo: lo, Hi: norm(lo, hi, width(m)), Width: width(m), Order: order, Value: v, Op: x.Op, Pos: x.Pos(), Buf: buf})
+								}
 							}
 						}
 					}
